@@ -56,10 +56,13 @@ def span_writes(fn):
 def output_flow_names(fn, is_parser_entry=False, with_returned=True):
     """names of objects that reach the function's results: parameters, elements of parameter lists, returned
     names, names appended / stored into returned lists (closure over plain aliasing)"""
-    params = {a.arg for a in list(fn.args.args) + list(fn.args.kwonlyargs) + list(fn.args.posonlyargs)} - {'self', 'cls'}
+    allp = list(fn.args.args) + list(fn.args.kwonlyargs) + list(fn.args.posonlyargs)
+    params = {a.arg for a in allp} - {'self', 'cls'}
     if is_parser_entry:
-        # the ExtractResult handed to Parser.parse is consumed: models keep only the returned ParseResult
-        params = set()
+        # the ExtractResult handed to a parser method is consumed: models keep only the returned ParseResult(s).
+        # Parameters that carry ParseResults (or lists of them) are outputs being finished in place and do flow.
+        params = {a.arg for a in allp if a.arg not in ('self', 'cls') and a.annotation is not None
+                  and 'ParseResult' in ast.unparse(a.annotation)}
     flow = set(params)
     returned = set()
     for n in ast.walk(fn):
